@@ -31,8 +31,13 @@ BOUNDS = {'quick': {'region_carts': 32, 'capacity_sizes': 6, 'small_lengths': '0
 CODE_AREA = 0x3d00
 
 
-def norm(code):
-    return code.replace(b'\r', b' ').rstrip(b'\n')
+def same_code(got, src, reads=1):
+    """Equality up to the reader's normalisation: CR reads as a blank, and each read may supply one final newline
+    (or one final newline may be missing). A reader that eats several trailing newlines, or the last character, is
+    not covered by that."""
+    got = got.replace(b'\r', b' ')
+    src = src.replace(b'\r', b' ')
+    return any(got == src + b'\n' * k for k in range(reads + 1)) or got + b'\n' == src
 
 
 def label_rows(k):
@@ -151,7 +156,7 @@ def write_and_check(fills, version, code, dest, res, tag, code_fits=True):
         if g2.version != (version & 0xff):
             res.violation('C04|version|reread', 'version %r after write+read (was %r)' % (g2.version, version), case)
         code2 = b''.join(g2.lua.to_lines())
-        if norm(code2) != norm(src):
+        if not same_code(code2, src):
             res.violation('C04|code|reread|%s|%s|v%s' % (mode, tcls, 'ersion0' if version == 0 else 'N'),
                           'code after write+read %r..., was %r... (len %d vs %d, stored %s)' % (
                               code2[:40], src[:40], len(code2), len(src), mode), case)
@@ -189,7 +194,7 @@ def convert_chain(fills, version, code, res, tag):
             if got[n] != want:
                 res.violation('C04|chain|region|%s' % n, 'region %s changed by .p8->.p8.png->.p8' % n, case)
         code3 = b''.join(g3.lua.to_lines())
-        if norm(code3) != norm(code):
+        if not same_code(code3, code, reads=2):
             res.violation('C04|chain|code', 'code changed by conversion: %r -> %r' % (code[:40], code3[:40]), case)
         res.outcome(('chain',))
     finally:
@@ -231,8 +236,9 @@ def small_codes():
     return out
 
 
-def raw_text_of_length(n):
-    """Incompressible (non-table upper-case) comment text of exact length n."""
+def raw_text_of_length(n, end=None):
+    """Incompressible (non-table upper-case) comment text of exact length n; end = 'letter' / 'newline' forces the kind
+    of the last byte (the reader supplies / normalises a final newline, so both endings are separate cases)."""
     body = bytearray()
     i = 0
     while len(body) < n:
@@ -242,6 +248,10 @@ def raw_text_of_length(n):
     body = bytes(body[:n])
     if body.endswith(b'-') and not body.endswith(b'--'):
         body = body[:-1] + b'Q'
+    if end == 'letter' and n and body.endswith(b'\n'):
+        body = body[:-1] + b'Q'
+    if end == 'newline' and n >= 4 and not body.endswith(b'\n'):
+        body = body[:-3] + (b'QQ\n' if body[-4:-3] != b'\n' else b'--\n')
     return body
 
 
@@ -297,6 +307,8 @@ def capacity_cases(tier):
     out = []
     for d in deltas:
         out.append(('cap-raw', d))
+        out.append(('cap-raw-letter', d))
+        out.append(('cap-raw-newline', d))
         out.append(('cap-comp', d))
     if tier == 'thorough':
         for n in range(1000, 15000, 650):
@@ -363,10 +375,10 @@ def run_shard(item):
     elif kind == 'cap':
         what, d = item[2]
         fills = carts.region_fills(2, 1)
-        if what == 'cap-raw':
-            code = raw_text_of_length(CODE_AREA + d)
-            write_and_check(fills, 33, code, 0 if d % 2 else None, res, ('cap-raw', d), code_fits=(d <= 0))
-            res.sample({'family': 'cap-raw', 'code_len': len(code), 'fits': d <= 0})
+        if what.startswith('cap-raw'):
+            code = raw_text_of_length(CODE_AREA + d, end=what[8:] or None)
+            write_and_check(fills, 33, code, 0 if d % 2 else None, res, (what, d), code_fits=(d <= 0))
+            res.sample({'family': what, 'code_len': len(code), 'fits': d <= 0, 'last_byte': code[-1:]})
         elif what == 'cap-comp':
             target = CODE_AREA - 8 + d
             code = comp_text_with_stream_length(target)
@@ -438,7 +450,7 @@ def replay(case):
         code = dict(small_codes())[tag]
         for dest in (None, 0):
             write_and_check({}, 33, code, dest, res, tag)
-    elif kind in ('cap-raw', 'cap-comp', 'mid'):
+    elif kind in ('cap-raw', 'cap-raw-letter', 'cap-raw-newline', 'cap-comp', 'mid'):
         res.merge(run_shard(('cap', 'thorough', tag)))
     elif kind == 'long':
         res.merge(run_shard(('long', tag[1])))
